@@ -147,7 +147,16 @@ def check_cast(rep, db, f, inst):
         return
     ps = Engine(db).run(f)
     rhs = ("pobj", f["params"][0]["n"])
+    trhs = (tt[1] or {}).get("c") if len(tt) > 1 else None
     for p in ps:
+        # a pointer read out of sandbox memory must be translated as the SOURCE's pointer type (function pointers and data
+        # pointers may be encoded differently by the backend)
+        for e in p.events:
+            if e.kind == "CALL" and q.short(e.a).startswith("impl_get_unsandboxed_pointer"):
+                ta = (e.extra or {}).get("ta") or []
+                if ta and trhs and norm(ta[0]) != norm(trhs):
+                    rep.violation(rule, site(f) + " [translation type]", "the source cell of type %s is translated as %s: the address/function designated can change when the backend encodes the two pointer kinds differently" % (trhs, ta[0]), e.loc, inst)
+                    return
         v = ops.ret_data(p)
         if v is None:
             rep.inconclusive(rule, site(f), "cannot determine the returned value", inst)
@@ -156,7 +165,7 @@ def check_cast(rep, db, f, inst):
             conds = q.conds_before(p, len(p.events))
             if any(q.mentions(c, lambda x: ops.is_value_of(x, rhs)) for c in conds):
                 continue
-        if not ops.is_value_of(v, rhs):
+        if not ops.is_value_of(strip_casts(v), rhs):
             rep.violation(rule, site(f), "the value wrapped is %s, not the cast of the argument's value" % fmt(v)[:120], f["loc"], inst)
             return
     rep.ok(rule, site(f), "%s of the argument's value, wrapped unchanged" % want_kind.replace("CXX", "").replace("Expr", ""), inst)
